@@ -66,7 +66,7 @@ fn show_players(p: &Players) -> String {
     format!("P{} B{}", show_list(&p.players, show_player), show_list(&p.bots, show_player))
 }
 
-fn show_response(r: &Response) -> String {
+pub fn show_response(r: &Response) -> String {
     format!("{} {} {}", show_info(&r.server_info), show_mr(&r.mutators_and_rules), show_players(&r.players))
 }
 
